@@ -47,7 +47,7 @@ func vH_C16_nonce_pattern() {
 	if typ == appctlpb.NonceType_NONCE_TYPE_FIXED {
 		np.CustomHexStrings = []string{"a1b2c3d4"}
 		if twoPrefixes {
-			np.CustomHexStrings = append(np.CustomHexStrings, "0102030405060708090a0b0c")
+			np.CustomHexStrings = append(np.CustomHexStrings, "01020304")
 		}
 	}
 	c.SetNoncePattern(np)
@@ -75,12 +75,7 @@ func vH_C16_nonce_pattern() {
 	default:
 		vAssert(vRWCalls == 0, "fixed type: no alphabet rewriting")
 		p1 := nonce[0] == 0xa1 && nonce[1] == 0xb2 && nonce[2] == 0xc3 && nonce[3] == 0xd4
-		p2 := true
-		for i := 0; i < 12; i++ {
-			if nonce[i] != byte(i+1) {
-				p2 = false
-			}
-		}
+		p2 := nonce[0] == 1 && nonce[1] == 2 && nonce[2] == 3 && nonce[3] == 4
 		vAssert(p1 || (twoPrefixes && p2), "fixed type: the nonce starts with one of the configured prefixes (on a clone too)")
 	}
 	// a stateless (UDP) cipher applies the pattern once unless applyToAllUDPPacket
